@@ -533,11 +533,11 @@ func c16BlackBox(c *fw.Ctx, r *rand.Rand, idx int) {
 
 func init() {
 	fw.Register(&fw.Monitor{
-		ID:        "C16",
-		Level:     "exploration",
-		Race:      true,
-		Technique: "runtime protocol monitor under the race detector: gate evaluator parks the search so that a superseded search provably has not ended, hook-point delays widen the hand-over windows between command loop, forwarder, timers and search; hostile and malformed command scripts; real binaries driven over pipes; goroutine-dump based leak and hang diagnosis",
-		Rule: "stale: go on P1 parked inside its k-th evaluation, then isready / stop / position P2 / ucinewgame / position P2 + go (P1, P2 have opposite sides to move): every isready answered while searching, a superseded search never answered, position+go answered exactly once with a move of P2; hostile: 8-37 random commands from {isready, position, go (6 forms), stop, ucinewgame, setoption, 44 malformed or unknown lines incl. over-long, non-UTF8, missing/overflowing arguments} with random pauses, then the driver must still answer position startpos / go depth 1 exactly once, then quit or end of input (also in the middle of a search): output closes; afterwards no goroutine remains inside morlock code; hook policies none / yield / random sleeps / long sleeps at hand-over points; blackbox: the four binaries (race build) driven over pipes: uciok, readyok, one legal bestmove per go, exit 0 without panic or race report; distinct = distinct session transcripts; interleaving signatures = distinct rolling hashes of hook-point order",
+		ID:          "C16",
+		Level:       "exploration",
+		Race:        true,
+		Technique:   "runtime protocol monitor under the race detector: gate evaluator parks the search so that a superseded search provably has not ended, hook-point delays widen the hand-over windows between command loop, forwarder, timers and search; hostile and malformed command scripts; real binaries driven over pipes; goroutine-dump based leak and hang diagnosis",
+		Rule:        "stale: go on P1 parked inside its k-th evaluation, then isready / stop / position P2 / ucinewgame / position P2 + go (P1, P2 have opposite sides to move): every isready answered while searching, a superseded search never answered, position+go answered exactly once with a move of P2; hostile: 8-37 random commands from {isready, position, go (6 forms), stop, ucinewgame, setoption, 44 malformed or unknown lines incl. over-long, non-UTF8, missing/overflowing arguments} with random pauses, then the driver must still answer position startpos / go depth 1 exactly once, then quit or end of input (also in the middle of a search): output closes; afterwards no goroutine remains inside morlock code; hook policies none / yield / random sleeps / long sleeps at hand-over points; blackbox: the four binaries (race build) driven over pipes: uciok, readyok, one legal bestmove per go, exit 0 without panic or race report; distinct = distinct session transcripts; interleaving signatures = distinct rolling hashes of hook-point order",
 		Assumptions: []string{"an unanswered isready is reported after a 60 s watchdog together with a goroutine dump (operations take milliseconds)", "a gate is never held across Halt: the iter.halt.enter hook releases it"},
 		Setup:       validateOracle,
 		Timeout:     minutes(15, 120),
